@@ -25,6 +25,7 @@ import (
 
 func init() {
 	Registry["scenario_faults"] = streamScenarioFaults
+	Registry["scenario_faults_rollback"] = streamScenarioFaultsRollback
 }
 
 // the corpus of C11: deterministic scripts over a 3-node cluster.
@@ -131,10 +132,29 @@ var corpusBaseline = map[int]struct {
 	kinds  []string
 }{}
 
-func streamScenarioFaults(r *rand.Rand, i int, tier string) *Case {
+// faultBound: no corpus scenario issues more API writes than this in its failure-free run (checked).
+const faultBound = 56
+
+func streamScenarioFaults(r *rand.Rand, i int, tier string) *Case { return faultCase(r, i, -1) }
+
+// scenario_faults_rollback: the same enumeration restricted to the canary-failure-and-rollback
+// scenario (C07's recovery clause, C02's "from every reachable intermediate state").
+func streamScenarioFaultsRollback(r *rand.Rand, i int, tier string) *Case { return faultCase(r, i, 3) }
+
+// faultCase enumerates: case i < faultBound*#scenarios*#kinds is the single fault (scenario, kind, k)
+// with k = i / (#scenarios*#kinds) -- every index k of the failure-free run's API writes and every
+// fault kind at k; the cases after that are pairs of faults at random positions.
+func faultCase(r *rand.Rand, i int, only int) *Case {
 	kinds := []string{"reject", "lost", "crash", "crash-after"}
-	idx := i % len(corpus)
-	kind := kinds[(i/len(corpus))%len(kinds)]
+	nc := len(corpus)
+	if only >= 0 {
+		nc = 1
+	}
+	idx := i % nc
+	if only >= 0 {
+		idx = only
+	}
+	kind := kinds[(i/nc)%len(kinds)]
 	base, ok := corpusBaseline[idx]
 	if !ok {
 		sc0, v, _, w := runCorpus(idx, nil)
@@ -150,27 +170,24 @@ func streamScenarioFaults(r *rand.Rand, i int, tier string) *Case {
 		}
 		sort.Strings(base.kinds)
 		corpusBaseline[idx] = base
+		if w > faultBound {
+			panic(fmt.Sprintf("corpus scenario %s issues %d writes > faultBound", corpus[idx].name, w))
+		}
 	}
+	singles := faultBound * nc * len(kinds)
+	pair := i >= singles
 	var k int
-	if tier == "thorough" {
-		k = i / (len(corpus) * len(kinds))
+	faults := map[int]string{}
+	if !pair {
+		k = i / (nc * len(kinds))
 		if k >= base.writes {
 			return nil
 		}
+		faults[k] = kind
 	} else {
-		// quick tier: the fault position is drawn per kind of write (pod creation, pod deletion,
-		// replica-set status, EDS status, EDS spec, ...), kinds taken in turn, so that every
-		// (scenario, fault kind, kind of write) combination is visited
-		wk := base.kinds[(i/(len(corpus)*len(kinds)))%len(base.kinds)]
-		ix := base.byKind[wk]
-		k = ix[r.Intn(len(ix))]
-	}
-	faults := map[int]string{k: kind}
-	pair := false
-	if tier == "thorough" && r.Intn(4) == 0 {
-		// pairs of faults
+		k = r.Intn(base.writes)
+		faults[k] = kind
 		faults[r.Intn(base.writes)] = kinds[r.Intn(len(kinds))]
-		pair = true
 	}
 	sc, v, converged, _ := runCorpus(idx, faults)
 	sc.steps = append(sc.steps, stepJ{"same_fixpoint", "final", map[string]interface{}{"baseline": base.view, "faulted": v, "ns": sc.ns, "eds": sc.name},
